@@ -90,6 +90,7 @@ type Client struct {
 	Pods      []*corev1.Pod
 	PDBs      []*policyv1.PodDisruptionBudget
 	VAs       []*storagev1.VolumeAttachment
+	DaemonSets []*appsv1.DaemonSet
 	Faults    map[string]bool
 	FaultMax  int // when > 0, the highest fault code any call may draw (1 = only a generic error)
 	Lag       map[string]bool
@@ -317,6 +318,11 @@ func (c *Client) List(ctx context.Context, list client.ObjectList, opts ...clien
 			if v, ok := f.fields["spec.nodeName"]; ok && x.Spec.NodeName != v {
 				continue
 			}
+			l.Items = append(l.Items, *x.DeepCopy())
+		}
+	case *appsv1.DaemonSetList:
+		l.Items = nil
+		for _, x := range c.DaemonSets {
 			l.Items = append(l.Items, *x.DeepCopy())
 		}
 	}
